@@ -12,7 +12,7 @@ import numpy as np
 import static_frame as sf
 
 from .. import core, project as P, tlaval
-from . import common as C, ops, c04, c08
+from . import common as C, ops, c04, c08, shape
 
 # ---------------------------------------------------------------------------------------------
 # R
@@ -315,5 +315,7 @@ def main(ctx):
                 ctx.violation('V', 'read routes disagree', case={'f': ev['f'], 'layout': ev['layout']}, actual={k: ev[k] for k in ('shape', 'values', 'cells')}, clause=clause)
     if sw:
         ctx.sample({'leg': 'V', 'sweep_event': {k: sw[0][k] for k in ('op', 'layouts')}, 'result0': sw[0]['results'][0]})
+    # ---- shape family (SFShape / MC_SHAPE): each operation has ONE prescribed result, executed on block layouts
+    shape.run(ctx, 1500 if quick else 40000)
     ctx.counters['sweep_ops'] = len(SWEEP)
-    return ctx.finish(rule='M/R: every admissible layout x select/drop/mask x column key (all slices, lists, masks) x 4 row selections of MC_C03 (quick replays a 12%% seeded sample of the dump, thorough all); V: C04/C08 random operations on up to 6 layouts each + %d-operation interface sweep on up to 5 layouts + read-route events' % len(SWEEP))
+    return ctx.finish(rule='M/R: every admissible layout x select/drop/mask x column key (all slices, lists, masks) x 4 row selections of MC_C03 (quick replays a 12%% seeded sample of the dump, thorough all); V: C04/C08 random operations on up to 6 layouts each + %d-operation interface sweep on up to 5 layouts + read-route events; shape family: every state of MC_SHAPE (reindex / roll / shift / head / tail / duplicated / drop_duplicated / isin / transpose / clip on a 3x4 Frame and Series, 4x4 thorough) replayed on block layouts, plus seeded random cases validated by Trace_Ops' % len(SWEEP))
